@@ -34,7 +34,7 @@ MANIFEST_ENTRY = {
 }
 RULE = ("a case is one estimator call on one image pair; distinct non-trivial = distinct (stream, variant, shape parity/squareness, "
         "upsample factor, shift class [zero/within half/beyond half/at half/sub-pixel], max_shift used, fft_input/fft_output flags) "
-        "with a non-constant image; the drift stream adds (canvas parity, stack size, upsample factor)")
+        "with a non-constant image; the drift stream adds (canvas parity, stack size, upsample factor), the history stream the sequence of (return_shifted_image, fft_output, swapped) calls made on one shared pair of arrays")
 TRUSTED = ["np.fft.fft2/ifft2 and torch.fft.fft2/ifft2 compute the defining DFT sums (exercised by every stream)",
            "torch.argmax/np.argmax return the first maximum; torch.round rounds half to even",
            "the correlation theorem (FFT product = spatial circular cross-correlation) is proved (Props/C13.correlation_theorem); the exact stream additionally measures it on the real FFTs"]
@@ -710,6 +710,101 @@ def gen_drift(rng):
             "max_shift": rng.choice([32, 32, 4]), "sub": rng.next() & 0xFFFFFFFF}
 
 
+def case_history(ctx, case):
+    """call histories on shared arrays: the estimators must not modify their inputs (bit-compare before/after
+    every call, all option combinations, NumPy and torch) and repeated / swapped calls on the same arrays must
+    keep returning the applied translation"""
+    import torch
+    iu = _iu()
+    img = case["img"]
+    M, N = len(img), len(img[0])
+    ref = np.array(img, dtype=float)
+    t = case["t"]
+    im = np.roll(ref, (t[0], t[1]), (0, 1))
+    if not unique_peak(cc_int(ref, ref))[0]:
+        ctx.dist["history:rejected(non-unique autocorrelation peak)"] += 1
+        return
+    up, fin, ms = case["up"], case["fft_input"], case["max_shift"]
+    ctx.count()
+    ctx.dist[f"history:fft_input={fin}"] += 1
+    ctx.dist[f"history:up={up}"] += 1
+    A = np.fft.fft2(ref) if fin else ref.copy()
+    B = np.fft.fft2(im) if fin else im.copy()
+    A0, B0 = A.copy(), B.copy()
+    ct = (centred(-t[0], M), centred(-t[1], N))
+    visible = ms is None or (ct[0] ** 2 + ct[1] ** 2 < ms ** 2)
+
+    def unchanged(tag):
+        okA = A.dtype == A0.dtype and A.tobytes() == A0.tobytes()
+        okB = B.dtype == B0.dtype and B.tobytes() == B0.tobytes()
+        if not (okA and okB):
+            ctx.pred_fail(f"np-input-modified-{'fft' if fin else 'real'}",
+                          f"cross_correlation_shift modified its {'first' if not okA else 'second'} input array in place ({tag})",
+                          case, observed={"max_change": float(np.max(np.abs(B - B0))) if okA else float(np.max(np.abs(A - A0)))},
+                          required="inputs bit-identical after the call")
+            return False
+        return True
+
+    def call(x, y, **kw):
+        with np.errstate(all="ignore"):
+            return iu.cross_correlation_shift(x, y, upsample_factor=up, max_shift=ms, fft_input=fin, **kw)
+
+    results = []
+    for step, kw in enumerate(case["calls"]):
+        swapped = kw.get("swap", False)
+        args = (B, A) if swapped else (A, B)
+        r = call(*args, return_shifted_image=kw["ret"], fft_output=kw["fft_output"])
+        sh = np.asarray(r[0] if kw["ret"] else r, dtype=float)
+        ok = unchanged(f"call #{step} ret={kw['ret']} fft_output={kw['fft_output']} swapped={swapped}")
+        tt = [-t[0], -t[1]] if swapped else t
+        if visible:
+            pred_integer_shift(ctx, dict(case, failing_call=step), "np-history", sh, M, N, tt, up, TOL64)
+        results.append((swapped, sh))
+        if not ok:
+            break
+    # repeated calls on the same arrays give the same answer
+    for sw in (False, True):
+        rs = [sh for s_, sh in results if s_ == sw]
+        if len(rs) > 1:
+            spread = max(float(np.max(np.abs(r - rs[0]))) for r in rs[1:])
+            ctx.stat_max("history:np repeated-call spread", spread)
+            if spread > TOL64:
+                ctx.pred_fail("np-repeated-call", "repeated calls of cross_correlation_shift on the same arrays return different shifts", case,
+                              observed=[r.tolist() for r in rs], required="identical results")
+    # torch: inputs untouched, repeated and swapped calls consistent
+    for dt in (torch.float64, torch.float32):
+        ta, tb = torch.tensor(ref, dtype=dt), torch.tensor(im, dtype=dt)
+        ta0, tb0 = ta.clone(), tb.clone()
+        tup = case["tup"]
+        r1 = iu.cross_correlation_shift_torch(ta, tb, upsample_factor=tup).numpy().astype(float)
+        r2 = iu.cross_correlation_shift_torch(ta, tb, upsample_factor=tup).numpy().astype(float)
+        r3 = iu.cross_correlation_shift_torch(tb, ta, upsample_factor=tup).numpy().astype(float)
+        if not (torch.equal(ta, ta0) and torch.equal(tb, tb0)):
+            ctx.pred_fail("torch-input-modified", "cross_correlation_shift_torch modified an input tensor in place", case,
+                          observed="changed", required="inputs bit-identical after the call")
+        if float(np.max(np.abs(r1 - r2))) > 0:
+            ctx.pred_fail("torch-repeated-call", "repeated calls of cross_correlation_shift_torch on the same tensors differ", case,
+                          observed=[r1.tolist(), r2.tolist()], required="identical results")
+        tolt = TOL64 if tup <= 2 else TOL32
+        pred_integer_shift(ctx, case, "torch-history", r1, M, N, t, tup, tolt)
+        pred_integer_shift(ctx, case, "torch-history", r3, M, N, [-t[0], -t[1]], tup, tolt)
+    ctx.mark(("history", shape_sig(M, N), up, fin, ms is not None, tuple((c["ret"], c["fft_output"], c.get("swap", False)) for c in case["calls"])))
+    ctx.sample(case, limit=8)
+
+
+def gen_history(rng):
+    M, N = gen_shape(rng, 4, 11)
+    calls = []
+    for i in range(rng.randint(3, 5)):
+        ret = rng.chance(0.6) if i else True     # the first call returns the aligned image
+        calls.append({"ret": ret, "fft_output": ret and rng.chance(0.5), "swap": i > 0 and rng.chance(0.4)})
+    if not any(c["swap"] for c in calls):
+        calls[-1]["swap"] = True
+    return {"stream": "history", "img": gen_int_image(rng, M, N), "t": [rng.randint(0, M - 1), rng.randint(0, N - 1)],
+            "up": rng.choice([1, 1, 2, 3, 4, 8]), "tup": rng.choice([1, 2, 4]), "fft_input": rng.chance(0.6),
+            "max_shift": rng.choice([None, None, 32, 6]), "calls": calls}
+
+
 def run_case(ctx, drv, case):
     s = case["stream"]
     if s == "exact":
@@ -724,6 +819,8 @@ def run_case(ctx, drv, case):
         case_users(ctx, case)
     elif s == "drift":
         case_drift(ctx, case)
+    elif s == "history":
+        case_history(ctx, case)
     else:
         raise ValueError(s)
 
@@ -763,6 +860,9 @@ def run(ctx):
         rng = ctx.rng.fork(6)
         for i in range(ctx.n(30, 300)):
             run_case(ctx, drv, gen_drift(rng.fork(i)))
+        rng = ctx.rng.fork(7)
+        for i in range(ctx.n(60, 600)):
+            run_case(ctx, drv, gen_history(rng.fork(i)))
     finally:
         drv.close()
 
